@@ -56,3 +56,16 @@ prop("C03",
           "the MPD's audio SegmentTimeline equals the model for every listed entry. Non-trivial = segment adjacent to a wrap, with padding, or "
           "whose frames span two VoD audio segments; distinct by hash of the case.",
      quick=dict(shards=2, timeout=300), thorough=dict(shards=16, timeout=1500), assumptions=COMMON)
+
+prop("C02",
+     rule="rapid draws (asset bundled/generated incl. text and thumbnail adaptation sets, MPD name, type Number/Timeline-Time/Timeline-Number, "
+          "start, tsbd, startNumber, ato, optional generated stpp/wvtt subtitles) and an instant placed at an availability breakpoint A_n, at a "
+          "window-start crossing, inside a segment or right after stream start (offsets 0,+-1,+-2 ms, +-1 segment; n right after start / around "
+          "wraps / many wraps / 2026 / 2090). The MPD is parsed with encoding/xml; every adaptation set is expanded to its declared segments "
+          "(explicit S entries, or implicit duration/startNumber/AST/tsbd/ato); up to 10 declared segments per representation are fetched at "
+          "the same instant: 200 with the declared time/duration/number; the segment after the live edge: 425; timeline contiguous, newest "
+          "entry = newest ended segment by the reference model, first entry within one segment of the window start. Non-trivial = an MPD "
+          "declaring >= 2 segments; distinct by hash of the case.",
+     quick=dict(shards=2, timeout=400), thorough=dict(shards=16, timeout=1500),
+     assumptions=COMMON + ["$Number$ templates on assets with non-constant durations are judged within the asset's duration variation, as the property states",
+                           "single period only (multi-period is C06)"])
